@@ -40,8 +40,8 @@ def main(ck):
       '+-2*mjMAXVAL / 0.5*mjMAXVAL forces need not produce a bad acceleration; only nan/inf/1e300 forces must']
   q = ck.quick
   jobs_rel, jobs_asan = [], []
-  n_rel, n_asan = ck.budget(1200, 40000), ck.budget(100, 6000)
-  sh_rel, sh_asan = (2, 2) if q else (8, 6)
+  n_rel, n_asan = ck.budget(1200, 40000), ck.budget(60, 6000)
+  sh_rel, sh_asan = (3, 1) if q else (8, 6)
   for s in range(sh_rel):
     jobs_rel.append(dict(family='inject', variant='rel', tier=ck.tier, seed=ck.seed, shard=s, n=n_rel // sh_rel))
   for s in range(sh_asan):
@@ -52,7 +52,7 @@ def main(ck):
                         nsteps=40))
   jobs_rel.append(dict(family='forward', variant='rel', tier=ck.tier, seed=ck.seed, shard=0, n=ck.budget(150, 6000)))
   for s_ in range(1 if q else 4):
-    jobs_asan.append(dict(family='forward', variant='asan', tier=ck.tier, seed=ck.seed, shard=s_, n=ck.budget(60, 4000) // (1 if q else 4)))
+    jobs_asan.append(dict(family='forward', variant='asan', tier=ck.tier, seed=ck.seed, shard=s_, n=ck.budget(40, 4000) // (1 if q else 4)))
   jobs_rel.append(dict(family='fd', variant='rel', tier=ck.tier, seed=ck.seed, shard=0, n=ck.budget(12, 300)))
   jobs_asan.append(dict(family='fd', variant='asan', tier=ck.tier, seed=ck.seed, shard=0, n=ck.budget(6, 100)))
   from vf import build as vb
@@ -103,7 +103,7 @@ def main(ck):
             ck.case(nontrivial=True, key=('crash', job['family'], job['variant'], res.get('journal')), sample=j,
                     labels=[job['family'], job['family'] + ':sanitizer-report'])
             # the worker died with the rest of its shard: run part of the remaining budget in a fresh worker
-            if job['family'] != 'fd' and job.get('retries', 0) < 3:
+            if job['family'] != 'fd' and job.get('retries', 0) < (1 if q else 3):
               retry.append(dict(job, shard=job['shard'] + 100 * (job.get('retries', 0) + 1),
                                 retries=job.get('retries', 0) + 1, n=max(10, job['n'] // 2)))
     jobs_rel = [j for j in retry if j['variant'] == 'rel']
